@@ -92,7 +92,7 @@ Definition x_dump (f : N) (s : cfs) : cfs * (Z * list N) :=
 
 (* CFS-specialised constructors used by the generated case files *)
 Definition CNew (entries : N) : hev CFS := @HNew CFS entries.
-Definition CRing (rid : N) (e : rev) : hev CFS := @HRing CFS rid e.
+Definition CRing (rid : N) (e : rv) : hev CFS := @HRing CFS rid e.
 Definition CDrop (rid : N) : hev CFS := @HDrop CFS rid.
 Definition CCrash : hev CFS := @HCrash CFS.
 Definition CFs (f : cfs -> cfs * (Z * list N)) : hev CFS := @HFs CFS f.
